@@ -35,7 +35,7 @@ func init() {
 				os.Exit(4)
 			}
 			if atomic.LoadInt32(&initDone) == 0 && time.Since(start) > initLimit {
-				fmt.Fprintf(os.Stderr, "harness: HANG: package initialisation (the path pool is measured by rendering one File per path) did not finish within %s: the implementation under test blocks in a render\n", initLimit)
+				fmt.Fprintf(os.Stderr, "harness: HANG: package initialisation (the path pool is measured by rendering one File per path) did not finish within %s: the implementation under test blocks or grows without bound in a render while executing: %s\n", initLimit, inFlight.Load().(func() string)())
 				os.Exit(4)
 			}
 			runtime.ReadMemStats(&ms)
